@@ -12,6 +12,7 @@ import Pandora.Proofs.C17Cast
 import Pandora.Proofs.C17Struct
 import Pandora.Proofs.C17Path
 import Pandora.Proofs.C17Subst
+import Pandora.Proofs.C17Seq
 import Pandora.Proofs.C17Valid
 import Pandora.Spec.C17
 
@@ -348,6 +349,39 @@ theorem C17_documented_constraint (fl : Flags) (env : Env) (fs : Fields) (kvs : 
   ⟨fun h => (C17_constraint fl env fs kvs f s hin).1 ((demandAll_tagsFail _ _).1 h),
     fun h => (demandAll_tagsFail _ _).2 h, demand_tagFail⟩
 
+/-- **The literal grammar of the casts extends plain decimal.** Every text that is a decimal number without sign and
+without leading zero is read by the casts (`strconv.ParseInt / ParseUint` with base 0, the model's `parseIntLit` /
+`parseUintLit`, which also read `0x…`, `0o…`, `0b…`, a leading `0` as octal, and `_` between digits) as that number,
+with either sign in front for the signed kinds. -/
+theorem C17_literal_decimal (s : Str) (n : Nat) (h : decimalNat s = some n) :
+    parseUintLit s = some n ∧ parseIntLit s = some (n : Int) ∧ parseIntLit ('-' :: s) = some (- (n : Int)) ∧
+    parseIntLit ('+' :: s) = some (n : Int) := by
+  have hu := parseUintLit_decimal s n h
+  refine ⟨hu, ?_, by simp [parseIntLit, hu], by simp [parseIntLit, hu]⟩
+  cases s with
+  | nil => simp [decimalNat] at h
+  | cons c r =>
+    have hc : isDigitC c = true := by
+      unfold decimalNat at h
+      split at h
+      · simp at h
+      · next heq => cases heq; decide
+      · next c' r' _ heq =>
+        cases heq
+        by_cases h0 : (c == '0') = true
+        · simp [h0] at h
+        · simp only [h0, Bool.false_eq_true, if_false] at h
+          by_cases ha : allDigits (c :: r) = true
+          · exact allDigits_head c r ha
+          · simp [ha] at h
+    have h1 : c ≠ '-' := by intro e; subst e; revert hc; decide
+    have h2 : c ≠ '+' := by intro e; subst e; revert hc; decide
+    unfold parseIntLit
+    split
+    · next heq => cases heq; exact absurd rfl h1
+    · next heq => cases heq; exact absurd rfl h2
+    · simp [hu]
+
 /-! ## placeholders -/
 
 /-- the statement about a field that is exactly one placeholder, for a given cast function -/
@@ -455,21 +489,49 @@ theorem C17_property_exact (lines : List Str) (key : Str) :
   ⟨fun v => findProp_some_iff lines key v, findProp_none_iff lines key, fun line v => lineKV_iff line key v,
     fun line h => lineKV_no_eq line h, fun more v w hm hno => lineKV_longer_key key more v w hm hno⟩
 
+/-- the full-strength claim about placeholders inside a string: for EVERY environment the field decodes to the text
+with every placeholder replaced, all at once, by what its resolver returns -/
+def C17_placeholder_substituted_statement : Prop :=
+  ∀ (env : Env) (d : DVal) (ps : List (Str × Str × Str)) (post : Str), PiecesOk ps post → ps ≠ [] →
+    decodeScalarWith castTo repoFlags env .str d (.str (piecesText ps post)) =
+      match piecesValue env ps post with
+      | some t => { val := .str t }
+      | none => R.fail d .resolve
+
 /-- **Placeholders inside a string.** A string field whose text is literal text with ANY NUMBER of placeholders
-(`pre₁ ${t₁:n₁} pre₂ ${t₂:n₂} … post`, the literal parts free of `$`) decodes to that text with every placeholder
-replaced by what its resolver returns; if one of them cannot be resolved the field is an error and keeps its default. -/
-theorem C17_placeholder_substituted (env : Env) (d : DVal) (ps : List (Str × Str × Str)) (post : Str)
-    (hok : PiecesOk ps post) (hne : ps ≠ []) :
+(`pre₁ ${t₁:n₁} pre₂ ${t₂:n₂} … post`, the literal parts, tag types and names free of `$`) decodes to that text with
+every placeholder replaced by what its resolver returns — provided no resolved value itself contains a `$` —; if one
+of them cannot be resolved the field is an error and keeps its default.  (`ResolveCustomTags` substitutes tag by
+tag with `strings.ReplaceAll` on the string built so far: `Model.renderSeq`; `Proofs.renderSeq_pieces` shows that
+this is the all-at-once substitution under the proviso.) -/
+theorem C17_placeholder_substituted_partial (env : Env) (d : DVal) (ps : List (Str × Str × Str)) (post : Str)
+    (hok : PiecesOk ps post) (hne : ps ≠ []) (hcl : PiecesClean ps) (hv : CleanValues env ps) :
     decodeScalarWith castTo repoFlags env .str d (.str (piecesText ps post)) =
       match piecesValue env ps post with
       | some t => { val := .str t }
       | none => R.fail d .resolve := by
-  have hres := resolve_pieces env ps post hok hne
+  have hres := resolve_pieces env ps post hok hne hcl hv
   simp only [decodeScalarWith, repoFlags, Bool.not_true, Bool.false_and, Bool.false_eq_true, if_false, hres]
   cases piecesValue env ps post with
   | none => rfl
   | some t =>
     cases loneTag (piecesSegs ps post) <;> simp [castTo, decodeKind]
+
+/-- Without the proviso the claim is false of the code: with `A=${env:B}` and `B=x` the string `${env:A}-${env:B}`
+becomes `x-x`, not `${env:B}-x` — the value of `A` is substituted AGAIN because it contains the text of a later
+placeholder of the same string (sequential `strings.ReplaceAll`). -/
+theorem C17_placeholder_substituted_counterexample : ¬ C17_placeholder_substituted_statement := by
+  intro h
+  have h1 := h ⟨[("A".toList, "${env:B}".toList), ("B".toList, "x".toList)], []⟩ (.str [])
+    [([], "env".toList, "A".toList), ("-".toList, "env".toList, "B".toList)] []
+    ⟨by
+      intro p hp
+      simp only [List.mem_cons, List.mem_nil_iff, or_false] at hp
+      rcases hp with rfl | rfl
+      · exact ⟨by decide, plainType_env, ⟨by decide, by decide⟩⟩
+      · exact ⟨by decide, plainType_env, ⟨by decide, by decide⟩⟩, by decide⟩ (by decide)
+  have h2 := congrArg (fun r : R => scalarEq r.val (.str "x-x".toList)) h1
+  exact absurd h2 (by decide)
 
 /-- **The decoded value at a Go field path.** Following Go field names from the root (through structs and pointers
 to structs), the value found in the decoded root is the decoded value of the sub-configuration at that position:
@@ -748,19 +810,34 @@ example :
     findProp ["instances_max=1000".toList] "instances".toList = none ∧
     lineKV "a=b=c".toList = some ("a".toList, "b=c".toList) := by decide
 
-/-- C17_placeholder_substituted: two placeholders and literal text in one string; one of them unset -/
+/-- C17_placeholder_substituted_partial: two placeholders and literal text in one string; one of them unset -/
 example :
     let ps : List (Str × Str × Str) := [("[Host: ".toList, "env".toList, "S".toList), (":".toList, "property".toList, "/etc/p.properties#port".toList)]
-    PiecesOk ps "]".toList ∧ ps ≠ [] ∧
+    PiecesOk ps "]".toList ∧ ps ≠ [] ∧ PiecesClean ps ∧ CleanValues env0 ps ∧
     piecesText ps "]".toList = "[Host: ${env:S}:${property:/etc/p.properties#port}]".toList ∧
     piecesValue env0 ps "]".toList = some "[Host: hello:8080]".toList ∧
     piecesValue env0 [([], "env".toList, "UNSET".toList)] [] = none := by
-  refine ⟨⟨?_, by decide⟩, by decide, by decide, by decide, by decide⟩
-  intro p hp
-  simp only [List.mem_cons, List.mem_nil_iff, or_false] at hp
-  rcases hp with rfl | rfl
-  · exact ⟨by decide, plainType_env, ⟨by decide, by decide⟩⟩
-  · exact ⟨by decide, plainType_property, ⟨by decide, by decide⟩⟩
+  refine ⟨⟨?_, by decide⟩, by decide, ?_, ?_, by decide, by decide, by decide⟩
+  · intro p hp
+    simp only [List.mem_cons, List.mem_nil_iff, or_false] at hp
+    rcases hp with rfl | rfl
+    · exact ⟨by decide, plainType_env, ⟨by decide, by decide⟩⟩
+    · exact ⟨by decide, plainType_property, ⟨by decide, by decide⟩⟩
+  · intro p hp
+    simp only [List.mem_cons, List.mem_nil_iff, or_false] at hp
+    rcases hp with rfl | rfl <;> exact ⟨by decide, by decide⟩
+  · intro p hp v hv
+    simp only [List.mem_cons, List.mem_nil_iff, or_false] at hp
+    rcases hp with rfl | rfl
+    · have : v = "hello".toList := by
+        have e : resolveTag env0 (placeholder "env".toList "S".toList) "env".toList "S".toList = some "hello".toList := by decide
+        rw [e] at hv; exact (Option.some.inj hv).symm
+      subst this; decide
+    · have : v = "8080".toList := by
+        have e : resolveTag env0 (placeholder "property".toList "/etc/p.properties#port".toList) "property".toList
+          "/etc/p.properties#port".toList = some "8080".toList := by decide
+        rw [e] at hv; exact (Option.some.inj hv).symm
+      subst this; decide
 
 /-- C17_value_at_path / C17_placeholder_at_path: `Monitoring.Expvar.Port` given as `${env:N}` below a pointer; the
 sibling keeps its default -/
